@@ -47,7 +47,7 @@ Lemma cids_down_all : forall ch h, h <= length ch -> cids ch (C4.down h h) = ski
 Proof.
   intros ch h. induction h as [|h IH]; intros H.
   - simpl. rewrite Nat.sub_0_r, skipn_all. reflexivity.
-  - rewrite down_S. unfold cids in *. simpl map. rewrite IH by lia.
+  - rewrite down_S. unfold cids in *. unfold C1.cid in *. simpl map. rewrite IH by lia.
     rewrite (skipn_cons_nth _ 0%N (length ch - S h)) by lia.
     unfold cid_of. unfold C1.cid in *. replace (S (length ch - S h)) with (length ch - h) by lia. reflexivity.
 Qed.
@@ -71,7 +71,7 @@ Qed.
 Lemma is_stop_pos : forall ch s p, NoDup ch -> in_range ch p -> s <= length ch ->
   C1.is_stop (stop_of ch s) (cid_of ch p) = (s =? p).
 Proof.
-  intros ch s p Hnd Hp Hs. destruct s as [|s]; simpl.
+  intros ch s p Hnd Hp Hs. destruct s as [|s]; cbn [stop_of].
   - destruct Hp as [Hp _]. destruct p; [lia | reflexivity].
   - change (C1.is_stop (Some (cid_of ch (S s))) (cid_of ch p)) with (N.eqb (cid_of ch (S s)) (cid_of ch p)).
     destruct (N.eqb_spec (cid_of ch (S s)) (cid_of ch p)) as [E|E].
@@ -82,24 +82,28 @@ Qed.
 Lemma take_until_none : forall l, C1.take_until None l = l.
 Proof. induction l as [|c l IH]; simpl; [reflexivity|]. rewrite IH. reflexivity. Qed.
 
+Lemma down_cons : forall h k, C4.down (S h) (S k) = S h :: C4.down h k.
+Proof. intros. simpl. rewrite Nat.sub_0_r. reflexivity. Qed.
+
 Lemma take_until_down : forall ch s, NoDup ch -> 1 <= s <= length ch ->
   forall k h, k <= h -> h <= length ch ->
   C1.take_until (stop_of ch s) (cids ch (C4.down h k)) =
   cids ch (C4.down h (if h <? s then k else Nat.min k (h - s))).
 Proof.
   intros ch s Hnd Hs k. induction k as [|k IH]; intros h Hk Hh.
-  - simpl. destruct (h <? s); reflexivity.
-  - destruct h as [|h]; [lia|]. unfold cids. simpl C4.down. rewrite Nat.sub_0_r. simpl map.
+  - destruct (h <? s); reflexivity.
+  - destruct h as [|h]; [lia|]. rewrite down_cons.
+    change (cids ch (S h :: C4.down h k)) with (cid_of ch (S h) :: cids ch (C4.down h k)).
     cbn [C1.take_until]. rewrite is_stop_pos; auto; [|split; lia|lia].
     destruct (Nat.eqb_spec s (S h)) as [E|E].
     + subst s. rewrite Nat.ltb_irrefl, Nat.sub_diag, Nat.min_0_r. reflexivity.
-    + fold (cids ch (C4.down h k)). rewrite IH by lia.
+    + rewrite IH by lia.
       destruct (S h <? s) eqn:E1.
       * apply Nat.ltb_lt in E1. assert (E2 : h <? s = true) by (apply Nat.ltb_lt; lia). rewrite E2.
-        simpl. rewrite Nat.sub_0_r. reflexivity.
+        rewrite down_cons. reflexivity.
       * apply Nat.ltb_ge in E1. assert (E2 : h <? s = false) by (apply Nat.ltb_ge; lia). rewrite E2.
         replace (Nat.min (S k) (S h - s)) with (S (Nat.min k (h - s))) by lia.
-        simpl. rewrite Nat.sub_0_r. reflexivity.
+        rewrite down_cons. reflexivity.
 Qed.
 
 (* the positions C04 walks are the blocks of C01's specified segment, in its order; also for
@@ -168,4 +172,522 @@ Proof.
   inversion Hl; subst. unfold cids, miss, C1.missing in *. simpl.
   fold (cids ch store). rewrite memb_cids by assumption.
   destruct (C4.mem p store); simpl; rewrite IH by assumption; reflexivity.
+Qed.
+
+(* ---------------------------------------------------------------------------------- *)
+(* B. C04's walk under ANY fault script: the store grows by a prefix of the missing     *)
+(*    blocks, in walk order; the answered block requests are that prefix                *)
+
+Lemma mem_cons : forall q p l, C4.mem q (p :: l) = (q =? p) || C4.mem q l.
+Proof. reflexivity. Qed.
+
+Lemma mem_app : forall q a b, C4.mem q (a ++ b) = C4.mem q a || C4.mem q b.
+Proof. intros. unfold C4.mem. apply existsb_app. Qed.
+
+Lemma miss_ext : forall s1 s2 l, (forall q, In q l -> C4.mem q s1 = C4.mem q s2) -> miss s1 l = miss s2 l.
+Proof. intros s1 s2 l H. unfold miss. apply filter_ext_in. intros q Hq. rewrite (H q Hq). reflexivity. Qed.
+
+Lemma miss_app : forall s a b, miss s (a ++ b) = miss s a ++ miss s b.
+Proof. intros. apply filter_app. Qed.
+
+Lemma miss_In : forall s l q, In q (miss s l) -> In q l.
+Proof. intros s l q H. unfold miss in H. apply filter_In in H. tauto. Qed.
+
+Lemma answered_app : forall w a b, answered w (a ++ b) = answered w a ++ answered w b.
+Proof. intros. unfold answered. apply flat_map_app. Qed.
+
+Lemma answered1_rev : forall w q, rev (answered1 w q) = answered1 w q.
+Proof.
+  intros w [[[a np] r] f]. unfold answered1. destruct r; [reflexivity|].
+  destruct f as [f|]; [|reflexivity]. destruct f; try reflexivity. destruct (C4.genuine w np); reflexivity.
+Qed.
+
+Lemma answered_rev : forall w l, answered w (rev l) = rev (answered w l).
+Proof.
+  intros w l. induction l as [|q l IH]; [reflexivity|].
+  simpl rev. rewrite answered_app, IH. unfold answered at 2 3. simpl flat_map.
+  rewrite app_nil_r, rev_app_distr, answered1_rev. reflexivity.
+Qed.
+
+Definition blk_of (r : C4.rsrc) : list nat := match r with C4.Blk p => [p] | C4.Head => [] end.
+
+Lemma exchange_answered : forall w pin a np r n x n',
+  C4.exchange w pin a np r n = (x, n') ->
+  answered w (C4.n_log n') = (if is_good x then blk_of r else []) ++ answered w (C4.n_log n).
+Proof.
+  intros w pin a np r n x n' H. unfold C4.exchange in H.
+  destruct (C4.n_cancelled n); [inversion H; reflexivity|].
+  destruct (negb (C4.pin_ok pin a)); [inversion H; reflexivity|].
+  destruct (negb (C4.alive w a)).
+  - inversion H; subst. simpl. destruct r; reflexivity.
+  - inversion H; subst. clear H. cbn [C4.n_log]. unfold answered at 1. cbn [flat_map]. fold (answered w (C4.n_log n)).
+    f_equal. unfold answered1.
+    destruct (P4.genuine_cases w np) as [Hg|[c Hg]]; rewrite Hg;
+      destruct (hd C4.FOk (C4.n_script n)); destruct r; reflexivity.
+Qed.
+
+Lemma fetch_loop_answered : forall fx w fuel r sy n d t tried res sy' n',
+  C4.fetch_loop fx w fuel r sy n d t tried = (res, sy', n') ->
+  answered w (C4.n_log n') =
+    (match res with C4.FetchOk => blk_of r | _ => [] end) ++ answered w (C4.n_log n).
+Proof.
+  intros fx w fuel. induction fuel as [|fuel IH]; intros r sy n d t tried res sy' n' H.
+  - simpl in H. inversion H; reflexivity.
+  - simpl in H.
+    destruct (C4.exchange w (C4.sy_pinned sy) (hd 0 (C4.sy_urls sy)) (C4.sy_nopath sy || t) r n) as [x n1] eqn:Hx.
+    pose proof (exchange_answered _ _ _ _ _ _ _ _ Hx) as Ha.
+    destruct x as [reset| c | |]; simpl in Ha.
+    + destruct (C4.can_failover fx sy tried).
+      * apply IH in H. rewrite H, Ha. reflexivity.
+      * destruct (negb d && reset).
+        -- apply IH in H. rewrite H, Ha. reflexivity.
+        -- inversion H; subst. exact Ha.
+    + destruct ((c =? 404)%N || (c =? 403)%N).
+      * destruct (C4.sy_plain sy && negb (C4.sy_nopath sy) && negb t).
+        -- destruct (C4.fx_nopath fx); apply IH in H; rewrite H, Ha; reflexivity.
+        -- inversion H; subst. exact Ha.
+      * inversion H; subst. exact Ha.
+    + inversion H; subst. exact Ha.
+    + inversion H; subst. exact Ha.
+Qed.
+
+Lemma walk_prefix : forall fx w T sy n store ok sy' n' store',
+  NoDup T -> C4.walk fx w T sy n store = (ok, sy', n', store') ->
+  exists k, k <= length (miss store T) /\
+    store' = rev (firstn k (miss store T)) ++ store /\
+    answered w (C4.n_log n') = rev (firstn k (miss store T)) ++ answered w (C4.n_log n) /\
+    (ok = true -> k = length (miss store T)) /\
+    (ok = false -> k < length (miss store T)).
+Proof.
+  intros fx w T. induction T as [|p rest IH]; intros sy n store ok sy' n' store' Hnd H; simpl in H.
+  - inversion H; subst. exists 0. simpl. repeat split; auto; intros; discriminate.
+  - inversion Hnd as [|x l Hp Hr]; subst.
+    unfold miss. cbn [filter]. fold (miss store rest).
+    destruct (C4.mem p store) eqn:Hm; cbn [negb].
+    + apply IH in H; assumption.
+    + destruct (C4.fetch fx w (C4.Blk p) sy n) as [[res sy1] n1] eqn:Hf. unfold C4.fetch in Hf.
+      pose proof (fetch_loop_answered _ _ _ _ _ _ _ _ _ _ _ _ Hf) as Ha.
+      assert (Hext : miss (p :: store) rest = miss store rest).
+      { apply miss_ext. intros q Hq. rewrite mem_cons.
+        destruct (Nat.eqb_spec q p); [subst; contradiction | reflexivity]. }
+      destruct res.
+      * apply IH in H; [|assumption]. rewrite Hext in H. destruct H as [k [K1 [K2 [K3 [K4 K5]]]]].
+        exists (S k). cbn [firstn length rev]. repeat split.
+        -- lia.
+        -- rewrite K2, <- app_assoc. reflexivity.
+        -- rewrite K3, Ha, <- app_assoc. reflexivity.
+        -- intros E. rewrite (K4 E). reflexivity.
+        -- intros E. specialize (K5 E). lia.
+      * inversion H; subst. exists 0. cbn [firstn rev app length]. repeat split; auto; try lia; intros; discriminate.
+      * inversion H; subst. exists 0. cbn [firstn rev app length]. repeat split; auto; try lia; intros; discriminate.
+Qed.
+
+Lemma firstn_len_app : forall (A : Type) (a b : list A) k, firstn (length a + k) (a ++ b) = a ++ firstn k b.
+Proof. intros. apply firstn_app_2. Qed.
+
+Lemma handle_segs_prefix : forall fx w sg segs hf sy n store hooks r,
+  NoDup (concat segs) -> C4.handle_segs fx w sg segs hf sy n store hooks = r ->
+  exists k, k <= length (miss store (concat segs)) /\
+    C4.h_store r = rev (firstn k (miss store (concat segs))) ++ store /\
+    answered w (C4.n_log (C4.h_net r)) = rev (firstn k (miss store (concat segs))) ++ answered w (C4.n_log n) /\
+    (C4.h_ok r = true -> k = length (miss store (concat segs)) /\
+       C4.h_hooks r = hooks ++ concat segs /\ C4.h_count r = length (hooks ++ concat segs)).
+Proof.
+  intros fx w sg segs. induction segs as [|s rest IH]; intros hf sy n store hooks r Hnd H; simpl in H.
+  - subst r. exists 0. simpl. rewrite app_nil_r. repeat split; auto.
+  - simpl concat in *. rewrite miss_app.
+    pose proof (P1.NoDup_app_l _ _ Hnd) as Hs. pose proof (P1.NoDup_app_r _ _ Hnd) as Hr.
+    destruct (C4.walk fx w s sy n store) as [[[ok sy1] n1] store1] eqn:Hw.
+    destruct (walk_prefix _ _ _ _ _ _ _ _ _ _ Hs Hw) as [k1 [W1 [W2 [W3 [W4 W5]]]]].
+    destruct ok.
+    + specialize (W4 eq_refl). subst k1. rewrite firstn_all in W2, W3.
+      destruct (sg && C4.hook_fails hf (length hooks) (length s)).
+      * subst r. cbn [C4.h_store C4.h_net C4.h_ok].
+        exists (length (miss store s)). rewrite app_length.
+        rewrite (P1.firstn_app_le _ _ _ (le_n _)), firstn_all.
+        repeat split; auto; try lia; try discriminate.
+      * assert (Hext : miss store1 (concat rest) = miss store (concat rest)).
+        { apply miss_ext. intros q Hq. rewrite W2, mem_app.
+          replace (C4.mem q (rev (miss store s))) with false; [reflexivity|].
+          symmetry. destruct (C4.mem q (rev (miss store s))) eqn:E; [|reflexivity].
+          apply P4.mem_In in E. apply in_rev in E. apply miss_In in E.
+          exfalso. eapply P1.NoDup_app_disj; eauto. }
+        apply IH in H; [|assumption]. rewrite Hext in H. destruct H as [k2 [K1 [K2 [K3 K4]]]].
+        exists (length (miss store s) + k2). rewrite app_length, firstn_len_app, rev_app_distr.
+        repeat split.
+        -- lia.
+        -- rewrite K2, W2, app_assoc. reflexivity.
+        -- rewrite K3, W3, app_assoc. reflexivity.
+        -- destruct (K4 H) as [K5 _]. lia.
+        -- destruct (K4 H) as [_ [K6 _]]. rewrite K6, app_assoc. reflexivity.
+        -- destruct (K4 H) as [_ [_ K7]]. rewrite K7, app_assoc. reflexivity.
+    + specialize (W5 eq_refl). subst r. cbn [C4.h_store C4.h_net C4.h_ok].
+      exists k1. rewrite app_length, (P1.firstn_app_le _ _ _ (Nat.lt_le_incl _ _ W5)).
+      repeat split; auto; try lia; try discriminate.
+Qed.
+
+Lemma handle_prefix : forall fx w seg h s hf sy n store r,
+  C4.handle fx w seg h s hf sy n store = r ->
+  let M := miss store (C4.todo h s) in
+  exists k, k <= length M /\
+    C4.h_store r = rev (firstn k M) ++ store /\
+    answered w (rev (C4.n_log (C4.h_net r))) = answered w (rev (C4.n_log n)) ++ firstn k M /\
+    (C4.h_ok r = true -> k = length M /\ C4.h_hooks r = C4.todo h s /\ C4.h_count r = length (C4.todo h s)).
+Proof.
+  intros fx w seg h s hf sy n store r H M. unfold C4.handle in H.
+  apply (handle_segs_prefix fx w) in H; [|rewrite P4.concat_segments; apply todo_facts].
+  rewrite P4.concat_segments in H. destruct H as [k [K1 [K2 [K3 K4]]]].
+  exists k. repeat split; auto.
+  - rewrite !answered_rev, K3, rev_app_distr, rev_involutive. reflexivity.
+  - apply K4; assumption.
+  - apply K4; assumption.
+  - apply K4; assumption.
+Qed.
+
+(* ---------------------------------------------------------------------------------- *)
+(* C. the composed theorems                                                            *)
+
+Lemma chain_nodup : forall extra ch, C1.chain_wf C1.EPrev extra ch = true -> NoDup ch.
+Proof.
+  intros extra ch H. unfold C1.chain_wf in H. apply andb_true_iff in H. destruct H as [_ H].
+  apply P1.nodupb_NoDup. exact H.
+Qed.
+
+Lemma range_todo : forall ch h s, in_range ch h -> Forall (in_range ch) (C4.todo h s).
+Proof.
+  intros ch h s [H1 H2]. apply Forall_forall. intros p Hp.
+  apply (proj2 (todo_facts h s)) in Hp. split; lia.
+Qed.
+
+Lemma cids_app : forall ch a b, cids ch (a ++ b) = cids ch a ++ cids ch b.
+Proof. intros. apply map_app. Qed.
+Lemma cids_rev : forall ch a, cids ch (rev a) = rev (cids ch a).
+Proof. intros. apply map_rev. Qed.
+Lemma cids_firstn : forall ch k a, cids ch (firstn k a) = firstn k (cids ch a).
+Proof. intros. symmetry. apply firstn_map. Qed.
+
+(* what C01 says about the sync C04 abstracts: handle = the specified segment *)
+Lemma c01_handle_closed : forall extra ch pub h s store segdl,
+  C1.chain_wf C1.EPrev extra ch = true -> in_range ch h -> s <= length ch -> s <> h ->
+  let sg := C1.segment ch (cid_of ch h) (stop_of ch s) None in
+  C1.avail pub (cids ch store) sg = true ->
+  C1.handle (C1.chain_world C1.EPrev extra ch pub) C1.VPrev (stop_of ch s) None segdl C1.HNominate
+            (cid_of ch h) (cids ch store) =
+  C1.HO sg (C1.missing (cids ch store) sg) (rev (C1.missing (cids ch store) sg) ++ cids ch store) (length sg) None.
+Proof.
+  intros extra ch pub h s store segdl Hwf Hh Hs Hne sg Hav.
+  pose proof (chain_nodup _ _ Hwf) as Hnd.
+  apply (P1.segmented_eq_unsegmented_proved C1.EPrev extra ch pub (cid_of ch h) (stop_of ch s) None (cids ch store) segdl); auto.
+  - apply cid_of_In. exact Hh.
+  - rewrite is_stop_pos by assumption. apply Nat.eqb_neq. exact Hne.
+Qed.
+
+(* (1) fault-free: C04's abstract walk IS C01's handle (hence the specified segment), for
+   every segment size *)
+Theorem abstract_walk_is_c01_walk_l : forall extra ch pub w seg h s sy n store,
+  C1.chain_wf C1.EPrev extra ch = true -> in_range ch h -> s <= length ch -> s <> h ->
+  Forall (in_range ch) store ->
+  C1.avail pub (cids ch store) (C1.segment ch (cid_of ch h) (stop_of ch s) None) = true ->
+  P4.wf_world w -> P4.SyOk w sy -> P4.HasGood w sy -> P4.clean n ->
+  let r := C4.handle C4.fx_fixed w seg h s None sy n store in
+  let o := C1.handle (C1.chain_world C1.EPrev extra ch pub) C1.VPrev (stop_of ch s) None
+                     (Z.of_nat seg) C1.HNominate (cid_of ch h) (cids ch store) in
+  C4.h_ok r = true /\ C1.h_err o = None /\
+  cids ch (C4.h_hooks r) = C1.h_hooks o /\
+  (exists reqs, answered w (rev (C4.n_log (C4.h_net r))) = answered w (rev (C4.n_log n)) ++ reqs /\
+                cids ch reqs = C1.h_reqs o) /\
+  cids ch (C4.h_store r) = C1.h_store o /\
+  C4.h_count r = C1.h_count o /\
+  C1.h_hooks o = C1.segment ch (cid_of ch h) (stop_of ch s) None.
+Proof.
+  intros extra ch pub w seg h s sy n store Hwf Hh Hs Hne Hst Hav Hw Hok Hg Hc r o.
+  pose proof (chain_nodup _ _ Hwf) as Hnd.
+  assert (Ho : o = _) by (apply c01_handle_closed; assumption). 
+  pose proof (P4.handle_clean w seg h s sy n store Hw Hok Hc Hg) as Hk. fold r in Hk.
+  destruct (handle_prefix C4.fx_fixed w seg h s None sy n store r eq_refl) as [k [K1 [K2 [K3 K4]]]].
+  destruct (K4 Hk) as [K5 [K6 K7]]. subst k. rewrite firstn_all in K2, K3.
+  pose proof (bridge_todo ch h s Hnd Hh Hs Hne) as Hb.
+  pose proof (miss_bridge ch store (C4.todo h s) Hnd Hst (range_todo ch h s Hh)) as Hm. rewrite Hb in Hm.
+  rewrite Ho. cbn [C1.h_err C1.h_hooks C1.h_reqs C1.h_store C1.h_count].
+  split; [exact Hk|]. split; [reflexivity|]. split; [rewrite K6; exact Hb|].
+  split; [exists (miss store (C4.todo h s)); split; [exact K3 | exact Hm]|].
+  split; [rewrite K2, cids_app, cids_rev, Hm; reflexivity|].
+  split; [rewrite K7, <- Hb; unfold cids; rewrite map_length; reflexivity | reflexivity].
+Qed.
+
+(* (2) under ANY fault script (any faults, at any requests, any code variant): what C04's
+   walk stores is exactly a PREFIX of C01's request order, newest first on top of the old
+   store, and nothing else; the block requests the publisher answered are that prefix; the
+   walk succeeds iff the prefix is the whole order *)
+Theorem faulty_walk_is_prefix_l : forall fx extra ch pub w seg h s hf sy n store,
+  C1.chain_wf C1.EPrev extra ch = true -> in_range ch h -> s <= length ch -> s <> h ->
+  Forall (in_range ch) store ->
+  C1.avail pub (cids ch store) (C1.segment ch (cid_of ch h) (stop_of ch s) None) = true ->
+  let r := C4.handle fx w seg h s hf sy n store in
+  let o := C1.handle (C1.chain_world C1.EPrev extra ch pub) C1.VPrev (stop_of ch s) None
+                     (Z.of_nat seg) C1.HNominate (cid_of ch h) (cids ch store) in
+  exists k, k <= length (C1.h_reqs o) /\
+    cids ch (C4.h_store r) = rev (firstn k (C1.h_reqs o)) ++ cids ch store /\
+    (exists reqs, answered w (rev (C4.n_log (C4.h_net r))) = answered w (rev (C4.n_log n)) ++ reqs /\
+                  cids ch reqs = firstn k (C1.h_reqs o)) /\
+    (C4.h_ok r = true -> k = length (C1.h_reqs o)).
+Proof.
+  intros fx extra ch pub w seg h s hf sy n store Hwf Hh Hs Hne Hst Hav r o.
+  pose proof (chain_nodup _ _ Hwf) as Hnd.
+  assert (Ho : o = _) by (apply c01_handle_closed; assumption).
+  destruct (handle_prefix fx w seg h s hf sy n store r eq_refl) as [k [K1 [K2 [K3 K4]]]].
+  pose proof (bridge_todo ch h s Hnd Hh Hs Hne) as Hb.
+  pose proof (miss_bridge ch store (C4.todo h s) Hnd Hst (range_todo ch h s Hh)) as Hm. rewrite Hb in Hm.
+  rewrite Ho. cbn [C1.h_reqs]. rewrite <- Hm.
+  exists k. unfold cids at 1. rewrite map_length. split; [exact K1|].
+  split; [rewrite K2, cids_app, cids_rev, cids_firstn; reflexivity|].
+  split; [exists (firstn k (miss store (C4.todo h s))); split; [exact K3 | apply cids_firstn]|].
+  intros E. apply K4 in E. destruct E as [E _]. unfold cids. rewrite map_length. exact E.
+Qed.
+
+(* ---- the fault index: one address, a publisher serving the IPNI path ---- *)
+
+Definition single_good (w : C4.world) (sy : C4.syncer) : Prop :=
+  exists a, C4.sy_urls sy = [a] /\ P4.good w sy a = true /\ C4.w_legacy w = false /\ C4.sy_nopath sy = false.
+
+Lemma exchange_single : forall w sy a r n f rest,
+  P4.good w sy a = true -> C4.w_legacy w = false ->
+  C4.n_cancelled n = false -> C4.n_script n = f :: rest ->
+  exists n', C4.exchange w (C4.sy_pinned sy) a false r n = (C4.apply_fault f C4.XOkGood, n') /\
+             C4.n_script n' = rest /\ C4.n_cancelled n' = C4.is_cancel f.
+Proof.
+  intros w sy a r n f rest Hg Hl Hc Hs. unfold C4.exchange. rewrite Hc.
+  unfold P4.good in Hg. apply andb_true_iff in Hg. destruct Hg as [Ha Hp]. rewrite Ha, Hp. simpl.
+  rewrite Hs. simpl. unfold C4.genuine. rewrite Hl. eexists. split; [reflexivity|]. split; reflexivity.
+Qed.
+
+Lemma fetch_single_ok : forall w sy n r rest,
+  single_good w sy -> C4.n_cancelled n = false -> C4.n_script n = C4.FOk :: rest ->
+  exists n', C4.fetch C4.fx_fixed w r sy n = (C4.FetchOk, sy, n') /\
+             C4.n_script n' = rest /\ C4.n_cancelled n' = false.
+Proof.
+  intros w sy n r rest [a [Hu [Hg [Hl Hn]]]] Hc Hs.
+  destruct (exchange_single w sy a r n C4.FOk rest Hg Hl Hc Hs) as [n' [Hx [H1 H2]]].
+  exists n'. unfold C4.fetch, C4.fetch_fuel. rewrite Hu. cbn [length Nat.mul Nat.add C4.fetch_loop].
+  rewrite Hu, Hn. cbn [hd orb]. rewrite Hx. cbn [C4.apply_fault]. split; [reflexivity | split; assumption].
+Qed.
+
+Lemma fetch_single_hard : forall w sy n r f rest,
+  single_good w sy -> C4.n_cancelled n = false -> C4.n_script n = f :: rest -> hard f = true ->
+  fst (fst (C4.fetch C4.fx_fixed w r sy n)) = C4.FetchErr.
+Proof.
+  intros w sy n r f rest [a [Hu [Hg [Hl Hn]]]] Hc Hs Hh.
+  destruct (exchange_single w sy a r n f rest Hg Hl Hc Hs) as [n' [Hx _]].
+  unfold C4.fetch, C4.fetch_fuel. rewrite Hu. cbn [length Nat.mul Nat.add C4.fetch_loop].
+  rewrite Hu, Hn. cbn [hd orb]. rewrite Hx.
+  unfold C4.can_failover. rewrite Hu. cbn [C4.fx_rotate C4.fx_fixed length Nat.sub Nat.ltb Nat.leb].
+  destruct f; try discriminate; cbn [C4.apply_fault negb andb]; try reflexivity.
+  simpl in Hh. apply negb_true_iff in Hh. rewrite Hh. reflexivity.
+Qed.
+
+Lemma walk_single : forall w T sy n store i f rest,
+  NoDup T -> single_good w sy -> C4.n_cancelled n = false ->
+  C4.n_script n = repeat C4.FOk i ++ f :: rest -> hard f = true ->
+  let M := miss store T in
+  let '(ok, sy', n', store') := C4.walk C4.fx_fixed w T sy n store in
+  if i <? length M
+  then ok = false /\ store' = rev (firstn i M) ++ store
+  else ok = true /\ store' = rev M ++ store /\ sy' = sy /\ C4.n_cancelled n' = false /\
+       C4.n_script n' = repeat C4.FOk (i - length M) ++ f :: rest.
+Proof.
+  intros w T. induction T as [|p T IH]; intros sy n store i f rest Hnd Hsg Hc Hs Hh; simpl.
+  - rewrite Nat.sub_0_r. repeat split; auto.
+  - inversion Hnd as [|x l Hp Hr]; subst.
+    unfold miss. cbn [filter]. fold (miss store T).
+    destruct (C4.mem p store) eqn:Hm; cbn [negb].
+    + apply IH; assumption.
+    + assert (Hext : miss (p :: store) T = miss store T).
+      { apply miss_ext. intros q Hq. rewrite mem_cons.
+        destruct (Nat.eqb_spec q p); [subst; contradiction | reflexivity]. }
+      destruct i as [|i]; simpl repeat in Hs; cbn [app] in Hs.
+      * pose proof (fetch_single_hard w sy n (C4.Blk p) f rest Hsg Hc Hs Hh) as Hf.
+        destruct (C4.fetch C4.fx_fixed w (C4.Blk p) sy n) as [[res sy1] n1]. simpl in Hf. subst res.
+        cbn [length Nat.ltb Nat.leb firstn rev app]. split; reflexivity.
+      * destruct (fetch_single_ok w sy n (C4.Blk p) _ Hsg Hc Hs) as [n1 [Hf [H1 H2]]]. rewrite Hf.
+        specialize (IH sy n1 (p :: store) i f rest Hr Hsg H2 H1 Hh). rewrite Hext in IH.
+        destruct (C4.walk C4.fx_fixed w T sy n1 (p :: store)) as [[[ok sy'] n'] store'].
+        cbv beta iota zeta in IH. cbn [length]. change (S i <? S (length (miss store T))) with (i <? length (miss store T)).
+        destruct (i <? length (miss store T)).
+        -- destruct IH as [I1 I2]. split; [exact I1|]. rewrite I2. cbn [firstn rev]. rewrite <- app_assoc. reflexivity.
+        -- destruct IH as [I1 [I2 I3]]. split; [exact I1|]. split; [|exact I3].
+           rewrite I2. cbn [rev]. rewrite <- app_assoc. reflexivity.
+Qed.
+
+Lemma handle_segs_single : forall w sg segs sy n store hooks i f rest,
+  NoDup (concat segs) -> single_good w sy -> C4.n_cancelled n = false ->
+  C4.n_script n = repeat C4.FOk i ++ f :: rest -> hard f = true ->
+  let M := miss store (concat segs) in
+  i < length M ->
+  let r := C4.handle_segs C4.fx_fixed w sg segs None sy n store hooks in
+  C4.h_ok r = false /\ C4.h_store r = rev (firstn i M) ++ store.
+Proof.
+  intros w sg segs. induction segs as [|s segs IH]; intros sy n store hooks i f rest Hnd Hsg Hc Hs Hh M Hi r.
+  - simpl in Hi. lia.
+  - subst r M. simpl concat in *. rewrite miss_app in *. rewrite app_length in Hi. simpl C4.handle_segs.
+    pose proof (P1.NoDup_app_l _ _ Hnd) as Hs1. pose proof (P1.NoDup_app_r _ _ Hnd) as Hr1.
+    pose proof (walk_single w s sy n store i f rest Hs1 Hsg Hc Hs Hh) as Hw. cbv zeta in Hw.
+    destruct (C4.walk C4.fx_fixed w s sy n store) as [[[ok sy1] n1] store1].
+    destruct (i <? length (miss store s)) eqn:E.
+    + destruct Hw as [W1 W2]. subst ok. cbn [C4.h_ok C4.h_store]. split; [reflexivity|].
+      apply Nat.ltb_lt in E. rewrite (P1.firstn_app_le _ _ _ (Nat.lt_le_incl _ _ E)). exact W2.
+    + destruct Hw as [W1 [W2 [W3 [W4 W5]]]]. subst ok sy1. rewrite andb_false_r.
+      apply Nat.ltb_ge in E.
+      assert (Hext : miss store1 (concat segs) = miss store (concat segs)).
+      { apply miss_ext. intros q Hq. rewrite W2, mem_app.
+        replace (C4.mem q (rev (miss store s))) with false; [reflexivity|].
+        symmetry. destruct (C4.mem q (rev (miss store s))) eqn:E2; [|reflexivity].
+        apply P4.mem_In in E2. apply in_rev in E2. apply miss_In in E2.
+        exfalso. eapply P1.NoDup_app_disj; eauto. }
+      specialize (IH sy n1 store1 (hooks ++ s) (i - length (miss store s)) f rest Hr1 Hsg W4 W5 Hh).
+      cbv zeta in IH. rewrite Hext in IH. destruct IH as [I1 I2]; [lia|].
+      split; [exact I1|]. rewrite I2, W2.
+      replace i with (length (miss store s) + (i - length (miss store s))) at 2 by lia.
+      rewrite firstn_len_app, rev_app_distr, app_assoc. reflexivity.
+Qed.
+
+(* with the first i requests answered and a hard fault at request i (one address, a publisher
+   serving the IPNI path, no hook failure): the sync fails and has stored exactly the first
+   i blocks of C01's request order *)
+Theorem fault_at_request_i_l : forall extra ch pub w seg h s sy n store i f rest,
+  C1.chain_wf C1.EPrev extra ch = true -> in_range ch h -> s <= length ch -> s <> h ->
+  Forall (in_range ch) store ->
+  C1.avail pub (cids ch store) (C1.segment ch (cid_of ch h) (stop_of ch s) None) = true ->
+  single_good w sy -> C4.n_cancelled n = false ->
+  C4.n_script n = repeat C4.FOk i ++ f :: rest -> hard f = true ->
+  let r := C4.handle C4.fx_fixed w seg h s None sy n store in
+  let o := C1.handle (C1.chain_world C1.EPrev extra ch pub) C1.VPrev (stop_of ch s) None
+                     (Z.of_nat seg) C1.HNominate (cid_of ch h) (cids ch store) in
+  i < length (C1.h_reqs o) ->
+  C4.h_ok r = false /\ C4.h_count r = 0 /\
+  cids ch (C4.h_store r) = rev (firstn i (C1.h_reqs o)) ++ cids ch store.
+Proof.
+  intros extra ch pub w seg h s sy n store i f rest Hwf Hh Hs Hne Hst Hav Hsg Hc Hscr Hhard r o Hi.
+  pose proof (chain_nodup _ _ Hwf) as Hnd.
+  assert (Ho : o = _) by (apply c01_handle_closed; assumption).
+  pose proof (bridge_todo ch h s Hnd Hh Hs Hne) as Hb.
+  pose proof (miss_bridge ch store (C4.todo h s) Hnd Hst (range_todo ch h s Hh)) as Hm. rewrite Hb in Hm.
+  rewrite Ho in *. cbn [C1.h_reqs] in *. rewrite <- Hm in *. unfold cids in Hi at 1. rewrite map_length in Hi.
+  subst r. unfold C4.handle.
+  destruct (handle_segs_single w (0 <? seg) (C4.segments seg (C4.todo h s)) sy n store [] i f rest) as [R1 R2]; auto.
+  - rewrite P4.concat_segments. apply todo_facts.
+  - rewrite P4.concat_segments. exact Hi.
+  - rewrite P4.concat_segments in R2. split; [exact R1|]. split.
+    + apply (P4.segment_failure_count_zero_l C4.fx_fixed w seg h s None sy n store). exact R1.
+    + rewrite R2, cids_app, cids_rev, cids_firstn. reflexivity.
+Qed.
+
+(* (2b) the one place where C04 abstracts C02: a block request whose outcome in C04 is x is,
+   in C02's fetchBlock (symbolic instance: content number = CID), the answer [c02_answer x]:
+   the genuine content, a body that does not hash to the CID, or no 200 answer.  fetchBlock
+   then commits exactly (c, content) when x is "200 with the genuine body" and leaves the
+   store EXACTLY as it was otherwise (C02's bad_fetch_commits_nothing) -- which is C04's
+   rule "a fetched block is stored at once, a rejected answer stores nothing". *)
+Theorem fetch_step_refines_c02_l : forall d resp reqs c bs x b,
+  C2.local_ok N C2.sym_hashes_to (C2.sym_links_of d) bs c = None ->
+  b <> c -> resp (length reqs) = c02_answer x c b ->
+  C2.fetch_block N C2.sym_hashes_to (C2.sym_links_of d) resp reqs c bs =
+    (reqs ++ [c], if is_good x then (c, c) :: bs else bs, if is_good x then Some c else None).
+Proof.
+  intros d resp reqs c bs x b Hl Hb Hr.
+  destruct x; simpl in *.
+  - apply P2.fetch_block_bad; [exact Hl | rewrite Hr; reflexivity].
+  - apply P2.fetch_block_bad; [exact Hl | rewrite Hr; reflexivity].
+  - unfold C2.fetch_block. rewrite Hl, Hr. unfold C2.sym_hashes_to. rewrite N.eqb_refl. reflexivity.
+  - apply P2.fetch_block_bad; [exact Hl|]. rewrite Hr. simpl. unfold C2.sym_hashes_to.
+    apply negb_true_iff. apply N.eqb_neq. exact Hb.
+Qed.
+
+(* (3) retry_converges against the INDEPENDENT specification: after any history of syncs of
+   head h (any faults) a fault-free sync ends with the latest sync and the stored blocks that
+   C01's sync_ad_chain_meets_spec gives for a SyncAdChain of that head on the INITIAL state:
+   initial store + segment ch head latest0 *)
+Theorem retry_converges_to_c01_spec_l : forall extra ch pub cfg w seg S0 L0 h ops r,
+  P4.wf_world w -> Forall (P4.wf_op w h) ops -> P4.retry_ok w h r ->
+  C1.chain_wf C1.EPrev extra ch = true -> in_range ch h -> L0 <= length ch ->
+  Forall (in_range ch) S0 ->
+  C1.c_strict cfg = true -> C1.c_hook cfg = C1.HNominate ->
+  C1.c_ads_depth cfg = 0%Z -> C1.c_first_depth cfg = 0%Z ->
+  let sg := C1.segment ch (cid_of ch h) (stop_of ch L0) None in
+  C1.avail pub (cids ch S0) sg = true ->
+  let st1 := fst (C4.step C4.fx_fixed w seg r (C4.run C4.fx_fixed w seg ops (C4.init S0 L0))) in
+  let o := C1.sync_ad_chain (C1.chain_world C1.EPrev extra ch pub) cfg (c01_call (cid_of ch h)) (c01_state ch S0 L0) in
+  let moved := negb (L0 =? h) in
+  o = C1.CO (C1.ROk (cid_of ch h)) sg (C1.missing (cids ch S0) sg)
+            (if moved then Some (cid_of ch h, length sg) else None)
+            (C1.ST (if moved then Some (cid_of ch h) else stop_of ch L0)
+                   (rev (C1.missing (cids ch S0) sg) ++ cids ch S0)) /\
+  stop_of ch (C4.s_latest st1) = C1.s_latest (C1.r_state o) /\
+  (forall c, In c (cids ch (C4.s_store st1)) <-> In c (C1.s_store (C1.r_state o))) /\
+  (forall c, In c (cids ch (C4.s_store st1)) <-> In c (cids ch S0) \/ In c sg).
+Proof.
+  intros extra ch pub cfg w seg S0 L0 h ops r Hw Hops Hr Hwf Hh HL HS0 Hstrict Hhook Hads Hfirst sg Hav st1 o moved.
+  pose proof (chain_nodup _ _ Hwf) as Hnd.
+  (* C01's specification, instantiated *)
+  assert (Hstop : C1.stop_table (C1.s_latest (c01_state ch S0 L0)) (C1.a_stop (c01_call (cid_of ch h)))
+                                (C1.a_resync (c01_call (cid_of ch h))) = stop_of ch L0) by reflexivity.
+  assert (Hlim : forall stop, C1.depth_table (C1.c_ads_depth cfg) (C1.c_first_depth cfg)
+                                (C1.a_depth (c01_call (cid_of ch h))) stop = None).
+  { intros stop. unfold C1.depth_table. rewrite Hads, Hfirst. destruct stop; reflexivity. }
+  assert (Hmoved : true && negb (C1.is_stop (stop_of ch L0) (cid_of ch h)) = moved).
+  { rewrite is_stop_pos by assumption. reflexivity. }
+  assert (Hav' : C1.avail pub (C1.s_store (c01_state ch S0 L0))
+            (C1.segment ch (cid_of ch h)
+               (C1.stop_table (C1.s_latest (c01_state ch S0 L0)) (C1.a_stop (c01_call (cid_of ch h))) (C1.a_resync (c01_call (cid_of ch h))))
+               (C1.depth_table (C1.c_ads_depth cfg) (C1.c_first_depth cfg) (C1.a_depth (c01_call (cid_of ch h)))
+                  (C1.stop_table (C1.s_latest (c01_state ch S0 L0)) (C1.a_stop (c01_call (cid_of ch h))) (C1.a_resync (c01_call (cid_of ch h)))))) = true).
+  { rewrite Hstop, Hlim. exact Hav. }
+  pose proof (P1.sync_ad_chain_spec extra ch pub cfg (c01_call (cid_of ch h)) (c01_state ch S0 L0) (cid_of ch h) true
+                Hwf Hstrict Hhook eq_refl (cid_of_In ch h Hh) Hav') as Ho.
+  unfold P1.ad_result in Ho. rewrite Hstop, Hlim, Hmoved in Ho. cbn [c01_state C1.s_latest C1.s_store] in Ho.
+  fold sg in Ho. fold o in Ho.
+  (* C04's retry *)
+  pose proof (P4.hinv_run w seg S0 L0 h ops _ Hw (P4.hinv_init w S0 L0 h) Hops) as Hinv.
+  destruct (P4.retry_from_inv w seg S0 L0 h _ r Hw Hinv Hr) as [_ [Hlat Hstore]]. fold st1 in Hlat, Hstore.
+  pose proof (bridge_need ch h L0 Hnd Hh HL) as Hb. fold sg in Hb.
+  assert (Hin : forall c, In c (cids ch (C4.s_store st1)) <-> In c (cids ch S0) \/ In c sg).
+  { intros c. rewrite <- Hb. unfold cids. rewrite !in_map_iff. split.
+    - intros [p [E Hp]]. apply Hstore in Hp. destruct Hp as [Hp|Hp]; [left | right]; exists p; auto.
+    - intros [[p [E Hp]]|[p [E Hp]]]; exists p; (split; [exact E|]); apply Hstore; [left | right]; exact Hp. }
+  split; [exact Ho|]. rewrite Ho. cbn [C1.r_state C1.s_latest C1.s_store].
+  split.
+  - rewrite Hlat. unfold moved. destruct (Nat.eqb_spec L0 h) as [E|E]; simpl.
+    + subst L0. reflexivity.
+    + destruct Hh as [H1 _]. destruct h; [lia | reflexivity].
+  - split; [|exact Hin]. intros c. rewrite Hin, in_app_iff, <- in_rev. split.
+    + intros [Hc|Hc]; [right; exact Hc|].
+      destruct (C1.memb c (cids ch S0)) eqn:Em; [right; apply P1.memb_In; exact Em|].
+      left. unfold C1.missing. apply filter_In. split; [exact Hc | rewrite Em; reflexivity].
+    + intros [Hc|Hc]; [right; apply P1.missing_In in Hc; tauto | left; exact Hc].
+Qed.
+
+(* Non-vacuity: a 5-chain, head at position 4, latest sync at position 1, block 3 already
+   stored, segment size 2: both models computed, the hypotheses of the theorems hold *)
+Example ex_compose :
+  let ch := [105; 104; 103; 102; 101]%N in
+  let w := P4.w_plain [true] in
+  let sy := {| C4.sy_addrs := [0]; C4.sy_urls := [0]; C4.sy_nopath := false; C4.sy_plain := true; C4.sy_pinned := None |} in
+  let n0 := {| C4.n_script := []; C4.n_cancelled := false; C4.n_log := [] |} in
+  let nf := {| C4.n_script := [C4.FOk; C4.FCorrupt]; C4.n_cancelled := false; C4.n_log := [] |} in
+  let r := C4.handle C4.fx_fixed w 2 4 1 None sy n0 [3] in
+  let rf := C4.handle C4.fx_fixed w 2 4 1 None sy nf [3] in
+  let o := C1.handle (C1.chain_world C1.EPrev [] ch ch) C1.VPrev (stop_of ch 1) None 2%Z C1.HNominate (cid_of ch 4) (cids ch [3]) in
+  C1.chain_wf C1.EPrev [] ch = true /\ in_range ch 4 /\ Forall (in_range ch) [3] /\
+  C1.avail ch (cids ch [3]) (C1.segment ch (cid_of ch 4) (stop_of ch 1) None) = true /\
+  single_good w sy /\ P4.SyOk w sy /\ P4.HasGood w sy /\
+  C1.h_hooks o = [104; 103; 102]%N /\ C1.h_reqs o = [104; 102]%N /\
+  cids ch (C4.h_hooks r) = C1.h_hooks o /\ cids ch (C4.h_store r) = C1.h_store o /\
+  answered w (rev (C4.n_log (C4.h_net r))) = [4; 2] /\
+  C4.h_ok rf = false /\ cids ch (C4.h_store rf) = rev (firstn 1 (C1.h_reqs o)) ++ cids ch [3].
+Proof.
+  cbv zeta. split; [reflexivity|]. split; [split; simpl; lia|].
+  split; [constructor; [split; simpl; lia | constructor]|]. split; [reflexivity|].
+  split; [exists 0; repeat split|].
+  split; [constructor; simpl; try tauto; try discriminate|].
+  split; [exists 0; split; [left; reflexivity | reflexivity]|].
+  vm_compute. repeat split.
 Qed.
